@@ -584,6 +584,121 @@ def part_scanner(ctx, rng, pool):
                                   observed={'adapt_sql': real_a['ok'], 'parse_raw_sql': real_r['items']}, expected='the same text / expression boundaries', key='two-scanners:' + st)
     core.adapted_sql_cache.clear(); ormtypes.raw_sql_cache.clear()
 
+# ------------------------------------------------------------------------------------------ part 6: one fragment, parameter values of different Python types
+
+import datetime as _dt, decimal as _dec, uuid as _uuid
+
+TYPED_VALUES = [('int', 7), ('str', 'abc'), ('Decimal', _dec.Decimal('1.50')), ('UUID', _uuid.UUID('12345678-1234-5678-1234-567812345678')),
+                ('datetime', _dt.datetime(2020, 1, 2, 3, 4, 5)), ('date', _dt.date(2020, 1, 2)), ('bool', True), ('float', 2.5), ('None', None)]
+TYPED_COLUMNS = ['n', 'name', 'price', 'uid', 'ts', 'd', 'flag', 'fl']
+
+def typed_db():
+    from pony.orm import PrimaryKey
+    db = Database()
+    class Item(db.Entity):
+        id = PrimaryKey(int)
+        n = Required(int)
+        name = Required(str)
+        price = Required(_dec.Decimal, precision=10, scale=2)
+        uid = Required(_uuid.UUID)
+        ts = Required(_dt.datetime)
+        d = Required(_dt.date)
+        flag = Required(bool)
+        fl = Required(float)
+    db.bind('sqlite', ':memory:')
+    db.generate_mapping(create_tables=True)
+    with db_session:
+        Item(id=1, n=7, name='abc', price=_dec.Decimal('1.50'), uid=TYPED_VALUES[3][1], ts=TYPED_VALUES[4][1], d=TYPED_VALUES[5][1], flag=True, fl=2.5)
+        Item(id=2, n=1, name='7', price=_dec.Decimal('7'), uid=_uuid.UUID(int=7), ts=_dt.datetime(2021, 1, 1), d=_dt.date(2021, 1, 1), flag=False, fl=7.0)
+    return db, Item
+
+# the CALLERS: one code location per way of running the fragment, the value is their local variable `x`
+def typed_query(Ent, frag, x):
+    return sorted(select(i.id for i in Ent if raw_sql(frag))[:])
+
+def typed_query_value(Ent, frag, x):
+    return sorted(select((i.id, raw_sql(frag)) for i in Ent)[:], key=repr)
+
+def typed_select(db, sql, x):
+    return sorted(db.select(sql))
+
+def typed_execute(db, sql, x):
+    return sorted(r[0] for r in db.execute(sql).fetchall())
+
+def typed_get_by_sql(Ent, sql, x):
+    r = Ent.get_by_sql(sql)
+    return None if r is None else r.id
+
+def typed_run(kind, db, Item, col, x):
+    """one execution in a session of its own; whatever the real code raises is the observed outcome"""
+    try:
+        with db_session:
+            if kind == 'query': return typed_query(Item, 'i.%s = $x' % col, x)
+            if kind == 'query-value': return [list(map(repr, r)) for r in typed_query_value(Item, '$x', x)]
+            if kind == 'select': return typed_select(db, 'select id from item where %s = $x' % col, x)
+            if kind == 'execute': return typed_execute(db, 'select id from item where %s = $x' % col, x)
+            return typed_get_by_sql(Item, 'select * from item where %s = $x' % col, x)
+    except Exception as e:
+        return 'raised ' + type(e).__name__
+
+def part_typed(ctx, rng):
+    """the same fragment executed again and again against ONE database with values of different Python types, in every
+       order of 'first type seen': every run must give what it gives alone, on a database that has seen nothing else"""
+    kinds = ['query', 'query-value', 'select', 'execute', 'get_by_sql']
+    cols = TYPED_COLUMNS if ctx.thorough else rng.sample(TYPED_COLUMNS, 3)
+    alone = {}
+    def alone_answer(kind, col, tname, x):
+        k = (kind, col, tname)
+        if k not in alone:
+            db, Item = typed_db()
+            alone[k] = typed_run(kind, db, Item, col, x)
+            db.disconnect()
+        return alone[k]
+    for kind in kinds:
+        for col in (cols if kind != 'query-value' else ['-']):
+            for first_name, first in TYPED_VALUES:
+                db, Item = typed_db()
+                order = [(first_name, first)] + rng.sample([v for v in TYPED_VALUES if v[0] != first_name], len(TYPED_VALUES) - 1)
+                if rng.random() < 0.5: order.append((first_name, first))          # and the first type once more at the end
+                seen = []
+                for tname, x in order:
+                    got = typed_run(kind, db, Item, col, x)
+                    exp = alone_answer(kind, col, tname, x)
+                    ctx.case(['typed', kind, col, first_name, tname], kind='typed:%s' % kind)
+                    ctx.count('typed:outcome:%s' % ('raised' if isinstance(got, str) else 'rows' if got else 'empty'))
+                    if got != exp:
+                        # minimal history: the first earlier run after which this run goes wrong
+                        key = None
+                        for pname, px in seen:
+                            db2, Item2 = typed_db()
+                            typed_run(kind, db2, Item2, col, px)
+                            bad = typed_run(kind, db2, Item2, col, x) != exp
+                            db2.disconnect()
+                            if bad:
+                                key = 'typed:%s:%s:%s-then-%s' % (kind, col, pname, tname)
+                                ctx.violation('the same raw SQL text run first with a %s and then with a %s parameter binds the second value differently from a run on its own '
+                                              '(way: %s, column %s)' % (pname, tname, kind, col),
+                                              {'way': kind, 'text': ('i.%s = $x' % col) if kind == 'query' else '$x' if kind == 'query-value' else 'select ... from item where %s = $x' % col,
+                                               'first x': repr(px), 'then x': repr(x)}, observed=got, expected=exp, key=key)
+                                break
+                        if key is None:
+                            ctx.violation('a run of the same raw SQL text gives another result after earlier runs with other parameter types than on its own',
+                                          {'way': kind, 'column': col, 'history': [n for n, _ in seen] + [tname]}, observed=got, expected=exp,
+                                          key='typed:%s:%s:%s' % (kind, col, '-'.join([n for n, _ in seen] + [tname])))
+                    seen.append((tname, x))
+                db.disconnect()
+    # the cache key itself: RawSQLType equality must tell apart everything the translation depends on
+    from pony.orm.ormtypes import RawSQLType
+    items = ('i.n = ', ('x', None))
+    base = RawSQLType('i.n = $x', items, (int,), None)
+    for what, other, same in [('types', RawSQLType('i.n = $x', items, (str,), None), False), ('sql', RawSQLType('i.n = $y', items, (int,), None), False),
+                              ('nothing', RawSQLType('i.n = $x', items, (int,), None), True)]:
+        ctx.case(['RawSQLType-eq', what], kind='typed:key')
+        eq = (base == other) and hash(base) == hash(other)
+        if eq != same:
+            ctx.violation('RawSQLType.__eq__/__hash__ %s two fragments that differ in %s' % ('identify' if eq else 'tell apart', what),
+                          {'a': ['i.n = $x', 'int'], 'b': [other.sql, [t.__name__ for t in other.types]]}, observed=eq, expected=same, key='typed:key:' + what)
+
 # ------------------------------------------------------------------------------------------ malformed input (observed, not judged)
 
 def part_malformed(ctx):
@@ -625,6 +740,7 @@ def run(ctx):
     part_api(ctx, rng)
     part_raw(ctx, pool[:ctx.scale(150, 1500)])
     part_scanner(ctx, rng, pool)
+    part_typed(ctx, rng)
     part_malformed(ctx)
     core.adapted_sql_cache.clear(); ormtypes.raw_sql_cache.clear()
     if not ctx.driver.ok: ctx.note('driver unavailable: the model tie was skipped, only the oracle on the real code ran')
